@@ -210,6 +210,8 @@ struct Harness<'a> {
 	broken_i1: bool,
 	broken_i3: bool,
 	known_entries: HashSet<Hash>,
+	/// first-kernel hashes of transactions whose admission was already reported (I4)
+	flagged: HashSet<Hash>,
 	overweight: Option<(Transaction, Coin)>,
 	dummy_cb: Option<(Output, TxKernel)>,
 	spare_sig_kernel: Option<TxKernel>,
@@ -313,6 +315,7 @@ impl<'a> Harness<'a> {
 			broken_i1: false,
 			broken_i3: false,
 			known_entries: HashSet::new(),
+			flagged: HashSet::new(),
 			overweight: None,
 			dummy_cb: None,
 			spare_sig_kernel: None,
@@ -670,6 +673,10 @@ impl<'a> Harness<'a> {
 		{
 			if self.known_entries.insert(tx.hash()) {
 				self.run.count("i4_entries_scanned", 1);
+				if tx.kernels().iter().any(|k| self.flagged.contains(&k.hash())) {
+					// its admission has been reported already (same defect, one signature)
+					continue;
+				}
 				if let Some(clause) = self.admission_clause(tx) {
 					let sig = format!("I4;scan;clause={};pool={}", clause, which);
 					self.violation(
@@ -728,7 +735,7 @@ impl<'a> Harness<'a> {
 			}
 		}
 		// I5 dry run
-		if !self.stop && self.prng.chance(1, 8) {
+		if !self.stop && self.prng.chance(1, 10) {
 			self.mine(false);
 		}
 	}
@@ -865,6 +872,9 @@ impl<'a> Harness<'a> {
 					},
 				};
 				if let Some(clause) = clause {
+					for k in s.eff.kernels() {
+						self.flagged.insert(k.hash());
+					}
 					let sig = format!(
 						"I4;clause={};capacity={};event=admitted",
 						clause,
@@ -896,7 +906,7 @@ impl<'a> Harness<'a> {
 					}
 					Label::Valid => {
 						self.run.count("valid_refused", 1);
-						self.run.count(&format!("valid_refused.{}", eclass(e)), 1);
+						self.run.count(&format!("valid_refused.{}.{}", s.kind, eclass(e)), 1);
 					}
 					Label::Unmineable => self.run.count("refused.unmineable", 1),
 					Label::Free => self.run.count(&format!("free_refused.{}", s.kind), 1),
@@ -1987,6 +1997,13 @@ impl<'a> Harness<'a> {
 
 	fn op_reorg(&mut self, lower: bool) {
 		let kind: &'static str = if lower { "reorg_lower" } else { "reorg" };
+		if lower && self.prng.chance(2, 3) {
+			// something that is mineable exactly from the next height on
+			self.submit_boundary();
+			if self.stop {
+				return;
+			}
+		}
 		let tip = self.chain.head().expect("head");
 		let avail = tip.height.saturating_sub(self.setup_height);
 		let kmax = avail.min(3);
@@ -2044,11 +2061,65 @@ impl<'a> Harness<'a> {
 				1000 + self.prng.below(500)
 			};
 			match self.deliver_foreign(kind, parent, &cands, d, fresh.len()) {
-				Some((bh, _, _)) => {
+				Some((bh, _, reorg)) => {
 					parent = bh;
 					td += d;
+					if reorg && lower {
+						// let the chain judge the mineable set at the lower height right away
+						self.force_mine = true;
+					}
 				}
 				None => return,
+			}
+		}
+	}
+
+	/// A transaction that becomes mineable exactly at the next height: spend of a
+	/// coinbase maturing there, or a kernel locked to that height.
+	fn submit_boundary(&mut self) {
+		let v = self.view();
+		let mat = global::coinbase_maturity();
+		let free = self.free_coins(&v);
+		let just: Vec<Coin> = free
+			.iter()
+			.filter(|c| {
+				c.coinbase
+					&& v.st
+						.utxo
+						.get(&c.commit)
+						.map(|&i| v.st.outs[i].height + mat == v.next_h)
+						.unwrap_or(false)
+			})
+			.cloned()
+			.collect();
+		let src = self.rand_src();
+		if !just.is_empty() && self.prng.chance(1, 2) {
+			let c = just[0].clone();
+			let (fee, shift) = self.good_fee(1, 1, c.value);
+			if let Some((tx, _)) = self.mk_tx(&[c], 1, fee, shift, None, 0) {
+				self.submit(Submission {
+					kind: "immature",
+					eff: tx.clone(),
+					tx,
+					label: Label::Valid,
+					stem: false,
+					src,
+					desc: "spend of a coinbase maturing exactly at the next height".into(),
+				});
+			}
+		} else if !free.is_empty() {
+			let c = self.prng.pick(&free).clone();
+			let (fee, shift) = self.good_fee(1, 1, c.value);
+			if let Some((tx, _)) = self.mk_tx(&[c], 1, fee, shift, Some(v.next_h), 0) {
+				self.submit(Submission {
+					kind: "immature",
+					eff: tx.clone(),
+					tx,
+					label: Label::Valid,
+					stem: false,
+					src,
+					desc: format!("height-locked exactly at the next height {}", v.next_h),
+				});
 			}
 		}
 	}
@@ -2275,7 +2346,7 @@ fn main() {
 		 low-fee (min-1, min/2, shifted) / overweight (11-12 outputs) / invalid (empty, unbalanced, bad signature x2, swapped proofs) / immature (coinbase, lock height; and exact boundaries) \
 		 as stem or fluff, stem re-submission, dandelion-monitor fluff and embargo expiry; mine a block from prepare_mineable_transactions(); foreign blocks with subsets of pool \
 		 txs and fresh conflicting spends; reorgs (depth 1-3, equal/longer fork, and shorter-but-heavier fork) re-including / omitting replaced txs; fill bursts to force eviction. \
-		 After EVERY operation I1-I3 + I4 scan are re-evaluated from scratch (reference ledger replay + aggregate/validate/Chain::validate_tx), I5 by dry-run after 1/8 of the operations \
+		 After EVERY operation I1-I3 + I4 scan are re-evaluated from scratch (reference ledger replay + aggregate/validate/Chain::validate_tx), I5 by dry-run after 1/10 of the operations \
 		 and by a really mined + processed block in `mine` operations. Sequences are sharded over 16 worker processes (sequence s is a function of (seed, s) only). \
 		 An evaluation = one executed operation; its signature is \
 		 (previous op kind > op kind, txpool size class {0,1-3,4-7,8+,over capacity}, stem flag, outcome class incl. error variant / eviction / block status); distinct signatures are counted.",
@@ -2319,6 +2390,12 @@ fn main() {
 	run.require("mined_blocks_accepted_nonempty", c("mined_blocks_accepted_nonempty"), 25 * scale);
 	run.require("foreign_blocks_accepted", c("foreign_blocks_accepted"), 40 * scale);
 	run.require("reorgs", c("reorgs"), 10 * scale);
+	run.require("reorgs_to_lower_height", c("reorgs_to_lower_height"), 2 * scale);
+	run.require(
+		"reorg.txpool_entries_returned_from_cache",
+		c("reorg.txpool_entries_returned_from_cache"),
+		5 * scale,
+	);
 	run.require("evictions", c("evictions"), 10 * scale);
 	run.require("refused.low_fee", c("refused.low_fee"), 20 * scale);
 	run.require("refused.overweight", c("refused.overweight"), 5 * scale);
